@@ -35,15 +35,6 @@ Qed.
 Lemma sort_uniq_sorted l : StronglySorted Z.lt (sort_uniq l).
 Proof. induction l as [|x l IH]; cbn; [constructor|apply insert_uniq_sorted, IH]. Qed.
 
-Lemma sorted_lt_app l1 l2 :
-  StronglySorted Z.lt l1 -> StronglySorted Z.lt l2 ->
-  (forall x y, In x l1 -> In y l2 -> x < y) -> StronglySorted Z.lt (l1 ++ l2).
-Proof.
-  induction 1 as [|x l1 Hs IH Hx]; cbn; intros H2 Hlt; [exact H2|].
-  constructor; [apply IH; auto; intros; apply Hlt; auto; right; auto|].
-  apply Forall_app. split; [exact Hx|]. apply Forall_forall. intros y Hy. apply Hlt; [left; reflexivity|exact Hy].
-Qed.
-
 (* two strictly ascending lists with the same members are equal *)
 Lemma sorted_lt_ext l1 : forall l2,
   StronglySorted Z.lt l1 -> StronglySorted Z.lt l2 -> (forall x, In x l1 <-> In x l2) -> l1 = l2.
@@ -249,22 +240,23 @@ Section Join.
   Proof. rewrite in_concat. split; intros (c & H1 & H2); eauto. Qed.
 
   Lemma length_concat_le {A} (f : list A -> list A) cs :
-    (forall c, (length (f c) <= length c)%nat) -> (length (concat (map f cs)) <= length (concat cs))%nat.
+    (forall c, In c cs -> (length (f c) <= length c)%nat) ->
+    (length (concat (map f cs)) <= length (concat cs))%nat.
   Proof.
-    intro H. induction cs as [|c cs IH]; cbn; [lia|]. rewrite !app_length. specialize (H c). lia.
+    intro H. induction cs as [|c cs IH]; cbn [map concat]; [lia|]. rewrite !app_length.
+    assert (H1 := H c (or_introl eq_refl)).
+    assert (length (concat (map f cs)) <= length (concat cs))%nat; [|lia].
+    apply IH. intros; apply H; right; auto.
   Qed.
 
   Lemma length_concat_lt {A} (f : list A -> list A) cs c0 :
     (forall c, In c cs -> (length (f c) <= length c)%nat) -> In c0 cs -> (length (f c0) < length c0)%nat ->
     (length (concat (map f cs)) < length (concat cs))%nat.
   Proof.
-    intros H. induction cs as [|c cs IH]; cbn; intros Hin Hlt; [destruct Hin|].
+    intros H. induction cs as [|c cs IH]; cbn [map concat]; intros Hin Hlt; [destruct Hin|].
     rewrite !app_length. assert (Hc := H c (or_introl eq_refl)).
     assert (Hrest : (length (concat (map f cs)) <= length (concat cs))%nat).
-    { clear - H. induction cs as [|c' cs IH]; cbn; [lia|]. rewrite !app_length.
-      assert (H1 := H c' (or_intror (or_introl eq_refl))).
-      assert (length (concat (map f cs)) <= length (concat cs))%nat; [|lia].
-      apply IH. intros c0 [E|Hc0]; apply H; [left; auto|right; right; auto]. }
+    { apply length_concat_le. intros; apply H; right; auto. }
     destruct Hin as [->|Hin]; [lia|].
     assert (length (concat (map f cs)) < length (concat cs))%nat; [|lia].
     apply IH; auto. intros; apply H; right; auto.
@@ -298,6 +290,7 @@ Section Join.
     assert (Hstar_ge : forall y, In y (xs :: ts) -> K <= kz y).
     { intros y Hy. destruct (proj2 (Hok _ Hcstar) y Hy) as (ky & Ey). rewrite (kz_some _ _ Ey).
       eapply child_keys_ge; eauto. }
+    clearbody K.
     (* the advanced children *)
     assert (Hcs1 : map (fun c => match c with
                        | [] => []
@@ -323,11 +316,7 @@ Section Join.
         intros c' Hc'. destruct (Hw (adv K c') (in_map _ _ _ Hc')) as (y & Hy & Ey).
         apply adv_spec in Hy as [Hy _]; auto. eauto. }
     assert (Hlen1 : (length (concat cs1) <= length (concat cs))%nat).
-    { unfold cs1. clear - Hok HKK key_mono key_le. induction cs as [|c cs IH]; cbn [map concat]; [lia|].
-      rewrite !app_length.
-      assert (length (adv K c) <= length c)%nat by (apply adv_spec; auto; apply Hok; left; auto).
-      assert (length (concat (map (adv K) cs)) <= length (concat cs))%nat; [|lia].
-      apply IH. intros; apply Hok; right; auto. }
+    { unfold cs1. apply length_concat_le. intros c Hc. apply adv_spec; auto. }
     destruct (heads cs1) as [hs1|] eqn:Hh1.
     2:{ apply heads_none in Hh1. exists []. split; [reflexivity|]. split; [constructor|].
         intro x. rewrite Hjoin1. split; [intros []|]. intros [_ Hw]. destruct (Hw [] Hh1) as (y & [] & _). }
@@ -418,7 +407,7 @@ Section Join.
         - exfalso. rewrite forallb_forall in Hall.
           assert (Ecs : cs1 = cs).
           { unfold cs1. clear - Hall Hok. induction cs as [|c cs IHc]; [reflexivity|]. cbn [map].
-            rewrite IHc; [|intros; apply Hall; right; auto|intros; apply Hok; right; auto]. f_equal.
+            rewrite IHc; [|intros; apply Hok; right; auto|intros; apply Hall; right; auto]. f_equal.
             specialize (Hall c (or_introl eq_refl)). destruct c as [|x t]; [reflexivity|]. cbn [adv].
             destruct (proj2 (Hok _ (or_introl eq_refl)) x (or_introl eq_refl)) as (kx & Ex).
             rewrite Ex. rewrite (kz_some _ _ Ex) in Hall. destruct (Z.ltb_spec kx K); [|reflexivity].
